@@ -1,16 +1,30 @@
 #!/bin/sh
-# Build the whole Coq development (full .vo build) from files on disk only.
+# Build the Coq development (full .vo build, no -vos) from files on disk only.
+# Succeeds when the property file of every check registered in MANIFEST.json is built.
 cd "$(dirname "$0")" || exit 1
 /venv/bin/python - <<'PY'
-import sys
+import json, os, sys, traceback
 sys.path.insert(0, 'lib'); sys.path.insert(0, 'gen')
 import vlib
-try:
-    import genall
-    genall.run_all()
-except ImportError:
-    pass
+vlib.ensure_impl_path()
+import glob, importlib
+for f in sorted(glob.glob('gen/c[0-9][0-9]_*.py')):
+    try:
+        mod = importlib.import_module(os.path.basename(f)[:-3])
+        if hasattr(mod, 'generate'):
+            mod.generate()
+    except Exception:
+        traceback.print_exc()
 ok, log = vlib.coq_make(None, timeout=3000)
-print(log[-3000:])
-sys.exit(0 if ok else 1)
+print(log[-2000:])
+man = json.load(open('MANIFEST.json'))
+missing = []
+for c in man['checks']:
+    pid = c['property_id']
+    if not os.path.exists('coq/props/%s.vo' % pid):
+        missing.append(pid)
+if missing:
+    print('setup: property files not built:', missing)
+    sys.exit(1)
+print('setup: ok (%d property files built)' % len(man['checks']))
 PY
